@@ -429,3 +429,21 @@ Example C06_scoping_needs_wf_scoped_with_functions :
   nofn ex_early_call = false /\ wf_scoped None ex_early_call = false /\
   ending_of (run_impl None eps0 50 ex_early_call) = Panicked PVarMissing.
 Proof. repeat split; vm_compute; reflexivity. Qed.
+
+(* ================================================================== round 3: end-to-end composition
+   theories/Pipeline.v assembles lexer -> parser -> named tree -> static rules -> evaluator from SOURCE
+   BYTES (tied to the code by lib/props/pipeline.py on source text).  Statements as in
+   Properties/PIPELINE.v; restated by type so that this property's audit covers them. *)
+Require NS.Properties.PIPELINE.
+
+(* an accepted source text never panics at the six structural sites; the C06 hypotheses are facts of the pipeline *)
+Theorem C06_accepted_never_panics_end_to_end :
+  ltac:(let t := type of NS.Properties.PIPELINE.PIPELINE_accepted_never_panics_end_to_end in exact t).
+Proof. exact NS.Properties.PIPELINE.PIPELINE_accepted_never_panics_end_to_end. Qed.
+Print Assumptions C06_accepted_never_panics_end_to_end.
+
+(* nor at the four sites dead for every program *)
+Theorem C06_accepted_never_panics_dead_sites :
+  ltac:(let t := type of NS.Properties.PIPELINE.PIPELINE_accepted_never_panics_dead_sites in exact t).
+Proof. exact NS.Properties.PIPELINE.PIPELINE_accepted_never_panics_dead_sites. Qed.
+Print Assumptions C06_accepted_never_panics_dead_sites.
